@@ -471,6 +471,31 @@ def shared_state(ctx, rule='C06.shared-state'):
     return res
 
 
+def writable_private(ctx, rule='C06.writable-private'):
+    """the writable bit of a handle cannot be set from outside the crate: no `pub` field of bool type in Tx / Bucket / Cursor / the iterators.  The guard of every mutator
+    reads that bit; a public one turns a handle of a read-only transaction into a writable one with a plain assignment"""
+    res = []
+    F = ctx.facts
+    n = 0
+    for name in CARRIERS:
+        a = F.adt(name)
+        if a is None:
+            continue
+        for f0 in a['variants'][0]['fields']:
+            if f0['ty'] == 'bool':
+                n += 1
+                if str(f0.get('vis', '')).lower() in ('pub', 'public') or str(f0.get('vis', '')).startswith('Public'):
+                    res.append(bad(rule, '%s.%s | public' % (name, f0['name']),
+                                   'the field %s.%s is `pub`: client code can flip the writable bit of a handle that belongs to a read-only transaction, after which put / delete / '
+                                   'create_bucket on it succeed instead of failing with ReadOnlyTx' % (name, f0['name'])))
+    f = floor(rule, 'bool fields of the handle types', n, 2)
+    if f:
+        res.append(f)
+    if not any(not r.ok for r in res):
+        res.append(ok(rule, 'none of the %d bool fields of the handle types is public' % n, sites=n))
+    return res
+
+
 def _err_readonly_blocks(fn, ctx=None):
     """blocks that store Err(Error::ReadOnlyTx) into _0 (directly, or by propagating with `?` the error of a guard helper that builds it)"""
     out = set()
@@ -826,6 +851,7 @@ def run(ctx, tier):
     results += commit_on_success_only(ctx)
     results += guard(ctx)
     results += writable_provenance(ctx)
+    results += writable_private(ctx)
     results += error_atomic(ctx)
     import c02, c16
     results += c02.alternate_rule(ctx, rule='C06.alternate')
